@@ -238,6 +238,36 @@ impl FixtureDatabase {
             Stmt::AugAssign(aug_assign) => {
                 self.visit_expr_for_names(&aug_assign.value, ctx);
             }
+            Stmt::AnnAssign(ann_assign) => {
+                if let Some(ref value) = ann_assign.value {
+                    self.visit_expr_for_names(value, ctx);
+                }
+            }
+            Stmt::Raise(raise_stmt) => {
+                if let Some(ref exc) = raise_stmt.exc {
+                    self.visit_expr_for_names(exc, ctx);
+                }
+                if let Some(ref cause) = raise_stmt.cause {
+                    self.visit_expr_for_names(cause, ctx);
+                }
+            }
+            Stmt::Try(try_stmt) => {
+                for stmt in &try_stmt.body {
+                    self.visit_stmt_for_names(stmt, ctx);
+                }
+                for handler in &try_stmt.handlers {
+                    let rustpython_parser::ast::ExceptHandler::ExceptHandler(h) = handler;
+                    for stmt in &h.body {
+                        self.visit_stmt_for_names(stmt, ctx);
+                    }
+                }
+                for stmt in &try_stmt.orelse {
+                    self.visit_stmt_for_names(stmt, ctx);
+                }
+                for stmt in &try_stmt.finalbody {
+                    self.visit_stmt_for_names(stmt, ctx);
+                }
+            }
             Stmt::Return(ret) => {
                 if let Some(ref value) = ret.value {
                     self.visit_expr_for_names(value, ctx);
@@ -257,10 +287,16 @@ impl FixtureDatabase {
                 for stmt in &while_stmt.body {
                     self.visit_stmt_for_names(stmt, ctx);
                 }
+                for stmt in &while_stmt.orelse {
+                    self.visit_stmt_for_names(stmt, ctx);
+                }
             }
             Stmt::For(for_stmt) => {
                 self.visit_expr_for_names(&for_stmt.iter, ctx);
                 for stmt in &for_stmt.body {
+                    self.visit_stmt_for_names(stmt, ctx);
+                }
+                for stmt in &for_stmt.orelse {
                     self.visit_stmt_for_names(stmt, ctx);
                 }
             }
@@ -275,6 +311,9 @@ impl FixtureDatabase {
             Stmt::AsyncFor(for_stmt) => {
                 self.visit_expr_for_names(&for_stmt.iter, ctx);
                 for stmt in &for_stmt.body {
+                    self.visit_stmt_for_names(stmt, ctx);
+                }
+                for stmt in &for_stmt.orelse {
                     self.visit_stmt_for_names(stmt, ctx);
                 }
             }
@@ -346,6 +385,38 @@ impl FixtureDatabase {
                 self.visit_expr_for_names(&call.func, ctx);
                 for arg in &call.args {
                     self.visit_expr_for_names(arg, ctx);
+                }
+                for keyword in &call.keywords {
+                    self.visit_expr_for_names(&keyword.value, ctx);
+                }
+            }
+            Expr::Starred(starred) => {
+                self.visit_expr_for_names(&starred.value, ctx);
+            }
+            Expr::BoolOp(boolop) => {
+                for value in &boolop.values {
+                    self.visit_expr_for_names(value, ctx);
+                }
+            }
+            Expr::IfExp(ifexp) => {
+                self.visit_expr_for_names(&ifexp.test, ctx);
+                self.visit_expr_for_names(&ifexp.body, ctx);
+                self.visit_expr_for_names(&ifexp.orelse, ctx);
+            }
+            Expr::Set(set) => {
+                for elt in &set.elts {
+                    self.visit_expr_for_names(elt, ctx);
+                }
+            }
+            Expr::Slice(slice) => {
+                if let Some(ref lower) = slice.lower {
+                    self.visit_expr_for_names(lower, ctx);
+                }
+                if let Some(ref upper) = slice.upper {
+                    self.visit_expr_for_names(upper, ctx);
+                }
+                if let Some(ref step) = slice.step {
+                    self.visit_expr_for_names(step, ctx);
                 }
             }
             Expr::Attribute(attr) => {
